@@ -244,6 +244,10 @@ pub struct TowerState {
     pub delay_ms: u64,
     /// the user's subscription has run out: appointments are refused with the subscription error until /register is served
     pub needs_renewal: bool,
+    /// slots a registration adds (100 unless a check wants towers that run out)
+    pub grant: u32,
+    /// refuse appointments with the subscription error when no slot is left (what a real tower does)
+    pub enforce_slots: bool,
 }
 
 pub struct FakeTower {
@@ -312,6 +316,8 @@ impl FakeTower {
             up: true,
             delay_ms: 0,
             needs_renewal: false,
+            grant: 100,
+            enforce_slots: false,
         }));
         let stop = Arc::new(AtomicBool::new(false));
         let in_flight = Arc::new(AtomicU64::new(0));
@@ -393,6 +399,14 @@ impl FakeTower {
         self.in_flight.load(Ordering::SeqCst)
     }
 
+    /// Registrations add `grant` slots from now on and appointments are refused once the slots are used up.
+    pub fn small_subscriptions(&self, grant: u32) {
+        let mut st = self.state.lock().unwrap();
+        st.grant = grant;
+        st.slots = 0;
+        st.enforce_slots = true;
+    }
+
     pub fn expire_subscription(&self) {
         self.state.lock().unwrap().needs_renewal = true;
     }
@@ -403,6 +417,10 @@ impl FakeTower {
 
     pub fn script(&self, path: &str, b: Vec<Behaviour>) {
         self.state.lock().unwrap().scripts.entry(path.to_string()).or_default().extend(b);
+    }
+
+    pub fn clear_scripts(&self) {
+        self.state.lock().unwrap().scripts.clear();
     }
 
     pub fn set_default(&self, path: &str, b: Behaviour) {
@@ -437,7 +455,11 @@ fn serve(state: &Arc<Mutex<TowerState>>, s: &mut TcpStream, path: &str, body: &V
         Behaviour::Reject(c) => respond(s, 400, format!(r#"{{"error":"rejected by script","error_code":{c}}}"#).as_bytes()),
         Behaviour::Raw(status, bytes) => respond(s, *status, bytes),
         Behaviour::WrongShape(j) => respond(s, 200, j.as_bytes()),
-        _ if path == "/add_appointment" && state.lock().unwrap().needs_renewal => {
+        _ if path == "/add_appointment" && {
+            let st = state.lock().unwrap();
+            st.needs_renewal || (st.enforce_slots && st.slots == 0)
+        } =>
+        {
             respond(s, 401, br#"{"error":"Your subscription expired at 10","error_code":7}"#)
         }
         _ => {
@@ -451,10 +473,10 @@ fn serve(state: &Arc<Mutex<TowerState>>, s: &mut TcpStream, path: &str, body: &V
                 let (slots, start, expiry) = {
                     let mut st = state.lock().unwrap();
                     match b {
-                        Behaviour::NotExtending(0) => st.slots += 100,
+                        Behaviour::NotExtending(0) => st.slots += st.grant,
                         Behaviour::NotExtending(_) => st.expiry += 1000,
                         _ => {
-                            st.slots += 100;
+                            st.slots += st.grant;
                             st.expiry += 1000;
                         }
                     }
@@ -472,7 +494,11 @@ fn serve(state: &Arc<Mutex<TowerState>>, s: &mut TcpStream, path: &str, body: &V
                 let user_sig = body["signature"].as_str().unwrap_or("").to_string();
                 let (slots, start, expiry) = {
                     let mut st = state.lock().unwrap();
-                    st.slots = st.slots.saturating_sub(1);
+                    // (a slot is used up by an acknowledgement the client can accept; the tampered variants leave the balance alone,
+                    // so that what the client believes and what the tower has do not drift apart by the harness's own doing)
+                    if *b == Behaviour::Accept {
+                        st.slots = st.slots.saturating_sub(1);
+                    }
                     (st.slots, st.start_block, st.expiry)
                 };
                 let mut r = AppointmentReceipt::new(user_sig, start);
